@@ -92,6 +92,8 @@ func init() {
 		// ---- unique ----
 		// unique.Make / Handle.Value are generic: matched by prefix below.
 
+		"maps.clone":            inMapsClone,
+		"slices.overlaps":       inSlicesOverlaps,
 		"unique.Make":           inUniqueMake,
 		"(unique.Handle).Value": inUniqueValue,
 
@@ -617,4 +619,36 @@ func inFormatInt(m *Machine, c *frame, fn *ssa.Function, a []value) value {
 		div *= 10
 	}
 	return strFromTerms(out)
+}
+
+// maps.clone (runtime linkname): a shallow copy of the map.
+func inMapsClone(m *Machine, c *frame, fn *ssa.Function, a []value) value {
+	it := a[0].(Iface)
+	src, _ := it.v.(*Map)
+	if src == nil {
+		return Iface{t: it.t, v: (*Map)(nil)}
+	}
+	if m.sched != nil {
+		m.sched.accessObj(src.obj, false)
+	}
+	dst := &Map{obj: m.newObj("map"), keyT: src.keyT, n: src.n}
+	dst.entries = make([]mapEntry, len(src.entries))
+	for i, e := range src.entries {
+		dst.entries[i] = mapEntry{k: copyVal(e.k), v: copyVal(e.v)}
+	}
+	return Iface{t: it.t, v: dst}
+}
+
+// slices.overlaps: whether two slices share an element (the real code
+// compares uintptr addresses).
+func inSlicesOverlaps(m *Machine, c *frame, fn *ssa.Function, a []value) value {
+	x, y := a[0].(Slice), a[1].(Slice)
+	for i := range x.a {
+		for j := range y.a {
+			if &x.a[i] == &y.a[j] {
+				return m.tt.True
+			}
+		}
+	}
+	return m.tt.False
 }
